@@ -340,7 +340,10 @@ def run_check(prop, tier, seed, only=None):
         with Lock("gen"):
             ok, gen_log = cfg["gen"]()
         if not ok:
-            violations.append(("translator failed on the working tree: " + gen_log[-1500:], None, False))
+            tp = write_replay(prop, "translator-failure", {"property": prop, "what": "a translator (lib/gen.py) failed on the working tree: the data the "
+                              "theorems are re-checked against could not be regenerated from the source", "broken": "translator of " + prop,
+                              "output": gen_log[-6000:]})
+            violations.append(("translator failed on the working tree: " + gen_log[-1500:], tp, False))
 
     # 2. build
     ok, build_log = coq_build(prop)
@@ -534,6 +537,8 @@ def run_check(prop, tier, seed, only=None):
     for n in notes:
         print("note: " + n[:600])
     if violations:
+        # a violation with a concrete failing input is reported in preference to a broken proof / translator / correspondence
+        violations.sort(key=lambda v: not v[2])
         what, p, found = violations[0]
         tail = "" if found else " no-failing-input-found"
         print("%s: %s" % (prop, what[:800]))
